@@ -88,6 +88,14 @@ func c06Exprs(tier string) []c06Expr {
 		for _, c2 := range cs {
 			out = append(out, c06Expr{bin("AND", c1, c2), "and-or", true}, c06Expr{bin("OR", c1, c2), "and-or", true})
 			out = append(out, c06Expr{bin("AND", ref.Not{X: par(c1)}, c2), "not-and", true})
+			for _, c3 := range cs[:3] {
+				// NOT nested inside / in front of parenthesised groups
+				out = append(out,
+					c06Expr{bin("AND", par(bin("OR", c1, ref.Not{X: c2})), c3), "not-in-group", true},
+					c06Expr{bin("OR", par(bin("AND", ref.Not{X: c1}, c2)), c3), "not-in-group", true},
+					c06Expr{bin("AND", c1, par(bin("OR", ref.Not{X: c2}, c3))), "not-in-group", true},
+					c06Expr{bin("AND", ref.Not{X: par(bin("OR", c1, ref.Not{X: c2}))}, c3), "not-in-group", true})
+			}
 			for _, c3 := range cs {
 				// c1 OR c2 AND c3  (AND binds tighter)
 				out = append(out, c06Expr{ref.Bin{Op: "OR", L: c1, R: ref.Bin{Op: "AND", L: c2, R: c3}}, "mixed-and-or-precedence", true})
